@@ -1,6 +1,7 @@
 package main
 
 import (
+	"bytes"
 	"encoding/binary"
 	"fmt"
 	"io"
@@ -23,6 +24,9 @@ func init() {
 		f := strings.Fields(l)
 		if len(f) >= 1 && f[0] == "agent" {
 			runAgent(f[1:])
+		}
+		if len(f) >= 2 && f[0] == "agentcodec" {
+			runCodec(f[1:])
 		}
 	}})
 }
@@ -87,8 +91,14 @@ func runAgent(msgs []string) {
 					s.data = append(s.data, buf[:n]...)
 					s.mu.Unlock()
 					if n > 0 && !replied {
+						// the service's reply: a stream chosen by the first byte it received, written in the chunk
+						// sizes of replyPlan (one Write each)
 						replied = true
-						c.Write([]byte("ack"))
+						stream := replyStream(buf[0], s.isUDP)
+						for _, k := range replyPlan(buf[0], s.isUDP) {
+							c.Write(stream[:k])
+							stream = stream[k:]
+						}
 					}
 					if s.isUDP || err != nil {
 						s.mu.Lock()
@@ -204,7 +214,23 @@ func runAgent(msgs []string) {
 		}
 		return true
 	}
-	for dl := time.Now().Add(3 * time.Second); !settled() && time.Now().Before(dl); {
+	repliesIn := func() bool {
+		bmu.Lock()
+		defer bmu.Unlock()
+		want, got := 0, 0
+		for _, rf := range refs {
+			if len(rf.data) > 0 {
+				want += len(replyStream(rf.data[0], rf.udp))
+			}
+		}
+		for _, b := range backs {
+			if b.typ == agent.TypeReadWriteTCP || b.typ == agent.TypeReadWriteUDP {
+				got += len(b.p)
+			}
+		}
+		return got >= want
+	}
+	for dl := time.Now().Add(3 * time.Second); !(settled() && repliesIn()) && time.Now().Before(dl); {
 		time.Sleep(2 * time.Millisecond)
 	}
 	time.Sleep(5 * time.Millisecond)
@@ -232,20 +258,34 @@ func runAgent(msgs []string) {
 		}
 		s.mu.Unlock()
 	}
-	// what the services wrote came back tagged with the connection's addresses
+	// what the services wrote came back tagged with the connection's addresses, in order: the payloads tagged with
+	// an address pair, concatenated, are the reply streams of the connections with that pair
 	bmu.Lock()
 	for i, rf := range refs {
 		if len(rf.data) == 0 {
 			continue
 		}
-		found := false
+		var got, want []byte
 		for _, b := range backs {
-			if (b.typ == agent.TypeReadWriteTCP || b.typ == agent.TypeReadWriteUDP) && b.l == rf.l && b.r == rf.r && string(b.p) == "ack" {
-				found = true
+			if (b.typ == agent.TypeReadWriteTCP || b.typ == agent.TypeReadWriteUDP) && b.l == rf.l && b.r == rf.r {
+				got = append(got, b.p...)
 			}
 		}
-		if !found {
-			viol(fmt.Sprintf("write-not-relayed-with-its-addresses:connection %d %s>%s", i, rf.r, rf.l))
+		shared := 0
+		for _, o := range refs {
+			if o.l == rf.l && o.r == rf.r && len(o.data) > 0 {
+				shared++
+				want = append(want, replyStream(o.data[0], o.udp)...)
+			}
+		}
+		if shared == 1 && !bytes.Equal(got, want) {
+			at := 0
+			for at < len(got) && at < len(want) && got[at] == want[at] {
+				at++
+			}
+			viol(fmt.Sprintf("write-not-relayed-in-order:connection %d %s>%s: the service wrote %d bytes in writes of %v, the agent received %d bytes tagged with its addresses (first difference at %d)", i, rf.r, rf.l, len(want), replyPlan(rf.data[0], rf.udp), len(got), at))
+		} else if shared > 1 && len(got) != len(want) {
+			viol(fmt.Sprintf("write-not-relayed-with-its-addresses:connections %s>%s wrote %d bytes, %d came back", rf.r, rf.l, len(want), len(got)))
 		}
 	}
 	for _, b := range backs {
@@ -292,8 +332,30 @@ func runAgent(msgs []string) {
 	emit(line, strings.Join(outs, " "), verdict, len(refs) > 0)
 }
 
+// replyPlan: the sizes of the Writes a stub service answers with, chosen by the first byte it received
+func replyPlan(first byte, udp bool) []int {
+	if udp {
+		return []int{3}
+	}
+	plans := [][]int{{3}, {1, 2, 3}, {700, 1}, {0, 5}, {4000, 4076, 4096}, {32768}, {65000}, {65400, 7}, {65535}, {65536, 1}, {70000}, {200000, 3}, {3}, {16}, {1, 1, 1, 1}, {9000}}
+	return plans[int(first)%len(plans)]
+}
+
+func replyStream(first byte, udp bool) []byte {
+	n := 0
+	for _, k := range replyPlan(first, udp) {
+		n += k
+	}
+	b := make([]byte, n)
+	for i := range b {
+		b[i] = byte(i*7) + first
+	}
+	return b
+}
+
 func genC16(tier string, seed uint64) {
 	r := NewRng(seed)
+	genC16Codec(tier, NewRng(seed+16))
 	type ap struct{ lip, lport, rip, rport string }
 	pairs := []ap{
 		{"0a000001", "22", "01020304", "40000"},
